@@ -1,5 +1,6 @@
 CONSTANT MaxN = 5
-CONSTANT Pools = {{0,1,2,3,4},{1,2,3,4},{3,7,11,5,2}}
+CONSTANT Pools = {{0,1,2,3,4},{1,2,3,4},{3,7,11,5,2},{3,7,11,5}}
+CONSTANT SlimTop = TRUE
 INIT Init
 NEXT Next
 INVARIANT Emitted
